@@ -1,29 +1,15 @@
 use super::*;
-fn naive_memchr3(a: u8, b: u8, c: u8, h: &[u8]) -> Option<usize> { let mut i = 0; while i < h.len() { if h[i] == a || h[i] == b || h[i] == c { return Some(i); } i += 1; } None }
-fn like_naive(p: &[u8], s: &[u8]) -> bool {
-    if p.is_empty() { return s.is_empty(); }
-    match p[0] {
-        b'%' => { let mut k = 0; loop { if like_naive(&p[1..], &s[k..]) { return true; } if k == s.len() { return false; } k += 1; } }
-        b'_' => !s.is_empty() && like_naive(&p[1..], &s[1..]),
-        b'\\' if p.len() >= 2 => !s.is_empty() && s[0] == p[1] && like_naive(&p[2..], &s[1..]),
-        c => !s.is_empty() && s[0] == c && like_naive(&p[1..], &s[1..]),
-    }
-}
 #[kani::proof]
 #[kani::unwind(6)]
-#[kani::stub(memchr::memchr3, naive_memchr3)]
-fn like_nonregex_ascii() {
-    let pb: [u8; 3] = kani::any(); let pn: usize = kani::any(); kani::assume(pn <= 3);
-    let sb: [u8; 3] = kani::any(); let sn: usize = kani::any(); kani::assume(sn <= 3);
-    for k in 0..3 { kani::assume(pb[k] < 0x80 && sb[k] < 0x80); }
-    let pat = unsafe { std::str::from_utf8_unchecked(&pb[..pn]) };
-    let s = unsafe { std::str::from_utf8_unchecked(&sb[..sn]) };
-    // classification only through strategies that need neither regex nor memmem
-    if !contains_like_pattern(pat) {
-        assert!((pat == s) == like_naive(&pb[..pn], &sb[..sn]));
-    } else if pat.ends_with('%') && !contains_like_pattern(&pat[..pat.len() - 1]) {
-        assert!(starts_with(s, &pat[..pat.len() - 1], equals_kernel) == like_naive(&pb[..pn], &sb[..sn]));
-    } else if pat.starts_with('%') && !contains_like_pattern(&pat[1..]) {
-        assert!(ends_with(s, &pat[1..], equals_kernel) == like_naive(&pb[..pn], &sb[..sn]));
-    }
+fn starts_ends_kernels() {
+    let hb: [u8; 4] = kani::any(); let nb: [u8; 3] = kani::any();
+    let (hn, nn): (usize, usize) = (kani::any(), kani::any());
+    kani::assume(hn <= 4 && nn <= 3);
+    for k in 0..4 { kani::assume(hb[k] < 0x80); } for k in 0..3 { kani::assume(nb[k] < 0x80); }
+    let h = unsafe { std::str::from_utf8_unchecked(&hb[..hn]) };
+    let n = unsafe { std::str::from_utf8_unchecked(&nb[..nn]) };
+    let want_s = hn >= nn && &hb[..nn] == &nb[..nn];
+    let want_e = hn >= nn && &hb[hn - nn..hn] == &nb[..nn];
+    assert!(starts_with(h, n, equals_kernel) == want_s);
+    assert!(ends_with(h, n, equals_kernel) == want_e);
 }
